@@ -23,6 +23,12 @@ import (
 func init() {
 	auxRegistry["crash"] = runCrash
 	auxRegistry["crashchild"] = runCrashChild
+	auxRegistry["crashdump"] = runCrashDump
+}
+
+// runCrashDump writes the generated cases of a tier/seed to <out>/cases.json (to replay a reported case by id).
+func runCrashDump(tier string, seed uint64, out string) {
+	writeJSON(filepath.Join(out, "cases.json"), genCrashCases(NewRand(seed), tier))
 }
 
 type crashCase struct {
@@ -71,6 +77,17 @@ func registerCrashFunctions() {
 			panic(errors.New("injected panic (error value)"))
 		}
 		return float64(1), nil
+	})
+	// crashslow: a function that keeps READING its arguments for a while (as a function that serialises and ships
+	// them does): under SPIN. / SPINASYNC. / ASYNC. it runs beside the query that built those arguments
+	genql.RegisterFunction("crashslow", func(_ *genql.Query, _ genql.Map, _ *genql.FunctionOptions, args []any) (any, error) {
+		n := len(fmt.Sprint(args...))
+		if os.Getenv("VERIF_CRASH_MARK") == "" { // the race pass needs one read only: it orders accesses, not times
+			for t0 := time.Now(); time.Since(t0) < 15*time.Millisecond; {
+				n += len(fmt.Sprint(args...))
+			}
+		}
+		return float64(n), nil
 	})
 }
 
@@ -126,9 +143,13 @@ func runCrashChild(tier string, seed uint64, out string) {
 	var cases []crashCase
 	must(json.Unmarshal(raw, &cases))
 	w := bufio.NewWriter(os.Stdout)
+	mark := os.Getenv("VERIF_CRASH_MARK") != ""
 	for _, c := range cases {
 		fmt.Fprintf(w, "START %d\n", c.ID)
 		w.Flush()
+		if mark { // the race pass attributes each report on stderr to the case that was running
+			fmt.Fprintf(os.Stderr, "\n@@CASE %d\n", c.ID)
+		}
 		class, detail := runOneCrashCase(c)
 		// give stray goroutines (SPIN) a moment to die loudly while this case is still the culprit
 		if strings.Contains(strings.ToLower(c.SQL), "spin") || strings.Contains(strings.ToLower(c.SQL), "async") {
@@ -244,6 +265,12 @@ var crashCorpus = []string{
 	"SELECT DISTINCT * FROM (SELECT (SELECT `<-` AS p FROM dual) AS x FROM t) AS d",
 	"SELECT DISTINCT (SELECT `<-` AS p FROM dual) AS x, * FROM t",
 	"WITH c AS (SELECT id FROM t) SELECT DISTINCT (SELECT `<-` AS p FROM dual) AS x FROM c",
+	// D79: memoised calls (ONCE. / GLOBAL. / whole-table aggregates) in the ON clause of a PARALLEL join: every goroutine of
+	// the join reads and writes the query's memo (decided on every run by the race pass, on some runs by the plain pass)
+	"SELECT x.id FROM t x PARALLEL LEFT JOIN u y ON x.n1 < y.n1 AND ONCE.IF(x.id > 1, ONCE.crashf((SELECT p FROM items LIMIT 1)), (SELECT p FROM items LIMIT 1)) IS NOT NULL",
+	"SELECT a.id FROM big AS a PARALLEL JOIN big AS b ON a.k = b.k AND ONCE.crashf(a.k) IS NOT NULL",
+	"SELECT a.id FROM big40 AS a PARALLEL JOIN big40 AS b ON a.k >= b.k AND GLOBAL.crashf((SELECT id FROM `<-.u`)) IS NOT NULL",
+	"SELECT a.id FROM big40 AS a PARALLEL LEFT JOIN big40 AS b ON a.k = b.k AND COUNT(*) > 0",
 	"SELECT * FROM t ORDER BY (SELECT 1 FROM dual)",
 	"SELECT * FROM t x PARALLEL JOIN u y ON x.n1 = y.n1 AND x.b1",
 	"SELECT * FROM t x PARALLEL LEFT JOIN u y ON NOT x.n1",
@@ -549,8 +576,8 @@ func runCrash(tier string, seed uint64, out string) {
 						}
 						hist[kind]++
 						msg := stderr.String()
-						if len(msg) > 600 {
-							msg = msg[:600]
+						if len(msg) > 20000 { // a fatal error prints every goroutine: the stage matches known call sites in it
+							msg = msg[:20000]
 						}
 						failures = append(failures, crashFailure{Case: c, Kind: kind, Detail: msg})
 						continue
@@ -571,11 +598,206 @@ func runCrash(tier string, seed uint64, out string) {
 		}
 	}
 	os.Remove(filepath.Join(out, "batch.json"))
+	race := map[string]any{"ran": false}
+	if rexe := os.Getenv("VERIF_RACE_EXE"); rexe != "" {
+		race = runRacePass(rexe, out, cases, NewRand(seed^0x9e3779b97f4a7c15))
+	}
 	samples := []any{}
 	for i := 0; i < len(cases) && len(samples) < 5; i += len(cases)/5 + 1 {
 		samples = append(samples, map[string]any{"sql": cases[i].SQL, "wrapped": cases[i].Wrapped, "pg": cases[i].PG, "idiom": cases[i].Idiom})
 	}
-	writeJSON(filepath.Join(out, "crash.json"), map[string]any{"cases": len(cases), "outcomes": hist, "streams": tagHist, "failures": failures, "samples": samples})
+	writeJSON(filepath.Join(out, "crash.json"), map[string]any{"cases": len(cases), "outcomes": hist, "streams": tagHist, "failures": failures, "samples": samples, "race": race})
+}
+
+// ---------- race pass ----------
+// A map that one goroutine writes while another reads or writes it makes the Go runtime end the process with
+// "fatal error: concurrent map ..." (no recover can catch it) — but only on the schedules where the two accesses
+// overlap, which the plain pass meets rarely. The race pass runs every case that starts goroutines (PARALLEL joins,
+// ASYNC / SPIN / SPINASYNC calls) plus a stream of "reader" cases once more in a child built with the race detector,
+// which reports two unordered accesses whether or not they overlapped on this run. Only reports in which an access is
+// a MAP operation of the runtime are C10 matters (they are the ones the runtime turns into a fatal error); the others
+// are counted in the evidence.
+
+type raceReport struct {
+	Case   crashCase `json:"case"`
+	Map    bool      `json:"map"`
+	Sig    []string  `json:"sig"` // first genql frame of each access, function name only
+	Report string    `json:"report"`
+	Frames []string  `json:"frames"` // every distinct genql function of the whole report (the text above is cut)
+}
+
+var raceSQL = []string{"PARALLEL", "ASYNC.", "SPIN."}
+
+func genReaderCases(r *Rand, doc func() map[string]any, id int) []crashCase {
+	var out []crashCase
+	args := []string{
+		"(SELECT ASYNC.crashf(p) AS v FROM items LIMIT 1)", "(SELECT ASYNC.crashf(p) AS v FROM items)", "(SELECT p, ASYNC.crashf(p) AS v FROM items)",
+		"items", "(SELECT * FROM items)", "(SELECT id, ASYNC.crashf(id) AS v FROM `<-.u`)", "(SELECT ONCE.crashf(p) AS v FROM items)", "id",
+	}
+	for _, qual := range []string{"SPIN.", "SPINASYNC.", "ASYNC.", "ONCE.", ""} {
+		for _, arg := range args {
+			var sqls []string
+			sqls = append(sqls, "SELECT id, "+qual+"crashslow("+arg+") AS s FROM t")
+			sqls = append(sqls, "SELECT id, "+qual+"crashslow("+arg+") AS s, ASYNC.crashf(id) AS w FROM t")
+			sqls = append(sqls, "SELECT id FROM t WHERE "+qual+"crashslow("+arg+") IS NOT NULL OR id > 0")
+			sqls = append(sqls, "SELECT x.id FROM t x PARALLEL JOIN u y ON x.n1 "+Pick(r, cmpOps)+" y.n1 AND "+qual+"crashslow("+strings.ReplaceAll(arg, "id", "x.id")+") IS NOT NULL")
+			sqls = append(sqls, "SELECT * FROM (SELECT id, "+qual+"crashslow("+arg+") AS s FROM t) AS d")
+			for _, q := range sqls {
+				o := r.Intn(8)
+				out = append(out, crashCase{ID: id, SQL: q, Doc: doc(), Wrapped: o&1 != 0, PG: o&2 != 0, Idiom: o&4 != 0, Tags: []string{"readers"}, Trigger: float64(1 + r.Intn(4))})
+				id++
+			}
+		}
+	}
+	return out
+}
+
+func runRacePass(rexe, out string, cases []crashCase, r *Rand) map[string]any {
+	var sel []crashCase
+	var doc map[string]any
+	for _, c := range cases {
+		up := strings.ToUpper(c.SQL)
+		for _, k := range raceSQL {
+			if strings.Contains(up, k) && !strings.Contains(c.SQL, "big4k") {
+				sel = append(sel, c)
+				break
+			}
+		}
+		if doc == nil && len(c.Doc) > 0 {
+			doc = c.Doc
+		}
+	}
+	sel = append(sel, genReaderCases(r, func() map[string]any { return doc }, len(cases))...)
+	byID := map[int]crashCase{}
+	for _, c := range sel {
+		byID[c.ID] = c
+	}
+	res := map[string]any{"ran": true, "cases": len(sel)}
+	var reports []raceReport
+	other := 0
+	done := 0
+	const batch = 400
+	for lo := 0; lo < len(sel); lo += batch {
+		hi := lo + batch
+		if hi > len(sel) {
+			hi = len(sel)
+		}
+		bf := filepath.Join(out, "racebatch.json")
+		writeJSON(bf, sel[lo:hi])
+		ctx, cancel := context.WithTimeout(context.Background(), 300*time.Second)
+		cmd := exec.CommandContext(ctx, rexe, "aux", "crashchild", "-in", bf)
+		cmd.Env = append(os.Environ(), "GORACE=halt_on_error=0 exitcode=0", "VERIF_CRASH_MARK=1", "GOTRACEBACK=single")
+		var stderr strings.Builder
+		cmd.Stderr = &stderr
+		stdout, err := cmd.Output()
+		timedOut := ctx.Err() != nil
+		cancel()
+		os.Remove(bf)
+		done += strings.Count(string(stdout), "\nEND ") + btoi(strings.HasPrefix(string(stdout), "END "))
+		if i := strings.Index(stderr.String(), "fatal error: concurrent map"); err != nil && !timedOut && i >= 0 {
+			// the accesses overlapped for real in the race child: the goroutine dump is the report (the rest of
+			// this batch is not run; the plain pass has run every case)
+			dump := stderr.String()[i:]
+			cur := -1
+			if j := strings.LastIndex(stderr.String()[:i], "\n@@CASE "); j >= 0 {
+				fmt.Sscan(stderr.String()[j+len("\n@@CASE "):], &cur)
+			}
+			frames := raceFrames(dump)
+			if len(dump) > 6000 {
+				dump = dump[:6000]
+			}
+			reports = append(reports, raceReport{Case: byID[cur], Map: true, Sig: []string{"fatal error in the race child"}, Report: dump, Frames: frames})
+			continue
+		}
+		if timedOut || err != nil {
+			// the plain pass decides crashes and hangs; a race child that does not complete leaves the pass undecided
+			msg := stderr.String()
+			if len(msg) > 400 {
+				msg = msg[len(msg)-400:]
+			}
+			res["error"] = fmt.Sprintf("race child did not complete (timeout=%v err=%v): %s", timedOut, err, msg)
+			break
+		}
+		cur := -1
+		for _, chunk := range strings.Split(stderr.String(), "\n@@CASE ") {
+			body := chunk
+			if nl := strings.IndexByte(chunk, '\n'); nl >= 0 {
+				var id int
+				if _, e := fmt.Sscan(chunk[:nl], &id); e == nil {
+					cur, body = id, chunk[nl+1:]
+				}
+			}
+			for _, rep := range strings.Split(body, "WARNING: DATA RACE")[1:] {
+				if i := strings.Index(rep, "=================="); i >= 0 {
+					rep = rep[:i]
+				}
+				isMap, sig := classifyRace(rep)
+				if !isMap {
+					other++
+					continue
+				}
+				frames := raceFrames(rep)
+				if len(rep) > 6000 {
+					rep = rep[:6000]
+				}
+				reports = append(reports, raceReport{Case: byID[cur], Map: true, Sig: sig, Report: rep, Frames: frames})
+			}
+		}
+	}
+	res["completed"] = done
+	res["other_races"] = other
+	res["map_races"] = reports
+	return res
+}
+
+func raceFrames(rep string) []string {
+	seen := map[string]bool{}
+	var out []string
+	for _, l := range strings.Split(rep, "\n") {
+		f := strings.TrimSpace(l)
+		if strings.HasPrefix(f, "github.com/vedadiyan/genql.") && !seen[f] {
+			seen[f] = true
+			out = append(out, strings.TrimPrefix(f, "github.com/vedadiyan/"))
+		}
+	}
+	return out
+}
+
+func btoi(b bool) int {
+	if b {
+		return 1
+	}
+	return 0
+}
+
+// classifyRace: is an access of the report a map operation of the runtime, and which genql function made each access.
+func classifyRace(rep string) (bool, []string) {
+	isMap := false
+	var sig []string
+	for _, part := range strings.Split(rep, "\n\n") {
+		t := strings.TrimSpace(part)
+		head := strings.ToLower(t)
+		if !(strings.HasPrefix(head, "read at") || strings.HasPrefix(head, "write at") || strings.HasPrefix(head, "previous read at") || strings.HasPrefix(head, "previous write at")) {
+			continue // "Goroutine N created at:" stacks
+		}
+		first := ""
+		lines := strings.Split(t, "\n")
+		for i, l := range lines {
+			f := strings.TrimSpace(l)
+			if strings.HasPrefix(f, "runtime.map") || strings.HasPrefix(f, "reflect.map") || strings.HasPrefix(f, "reflect.(*MapIter)") {
+				isMap = true
+			}
+			if first == "" && strings.HasPrefix(f, "github.com/vedadiyan/genql.") && i+1 < len(lines) && strings.Contains(lines[i+1], "/repo/") {
+				first = strings.TrimSuffix(strings.TrimPrefix(f, "github.com/vedadiyan/genql."), "()")
+			}
+		}
+		kind := "read"
+		if strings.Contains(strings.SplitN(head, " at", 2)[0], "write") {
+			kind = "write"
+		}
+		sig = append(sig, kind+":"+first)
+	}
+	return isMap, sig
 }
 
 // prefixCompletes re-runs a batch prefix in a fresh child with a generous timeout.
